@@ -112,7 +112,7 @@ class ImplFns:
         self.mj = mj
         self.model = build_model(mj)
         self.solve, self.template = get_lcm_function(self.model, targets="solve", jit=jit)
-        self.simulate, _ = get_lcm_function(self.model, targets="simulate", jit=jit)
+        self.simulate, self.sim_template = get_lcm_function(self.model, targets="simulate", jit=jit)
         self._sas = None
         self.jit = jit
         # every third instance lives through a *history*: each solve / simulate call is preceded by another call on the same
@@ -209,8 +209,15 @@ def check_simulation(mj, P, V, rows, init, tol=None):
                 out["C03"].append({"clause": "period-0 states equal the initial states", "detail": f"agent {i} state {s}: frame {rows[0][i]['states'][s]}, supplied {init[s][i]}"})
     for t in range(T):
         Vnext = V[t + 1] if t + 1 < T else None
-        spec = model_sim_spec(mj, P, t, Vnext, rows[t])
+        # choices that are not numbers cannot be sent to the model: they are replaced for the call and judged below
+        nan_rows = {i for i, row in enumerate(rows[t]) if any(c != c for c in row["choices"].values())}
+        clean = [dict(row, choices={k: (0.0 if v != v else v) for k, v in row["choices"].items()}) if i in nan_rows else row for i, row in enumerate(rows[t])]
+        spec = model_sim_spec(mj, P, t, Vnext, clean)
         for i, (row, sp) in enumerate(zip(rows[t], spec)):
+            if i in nan_rows and not sp["undefined"] and sp["best"] != "-inf":
+                out["stats"]["agent_periods"] += 1
+                out["C02"].append({"clause": "reported choices are grid values", "detail": f"period {t} agent {i} states {row['states']} choices {row['choices']}"})
+                continue
             out["stats"]["agent_periods"] += 1
             if row["_period"] != t:
                 out["C13"].append({"clause": "_period equals t in row (t, i)", "detail": f"row ({t},{i}) has _period {row['_period']}"})
@@ -221,8 +228,13 @@ def check_simulation(mj, P, V, rows, init, tol=None):
             if sp["n_optimal"] > 1:
                 out["stats"]["ties"] += 1
             if sp["best"] == "-inf":
-                # no admissible choice: outside the supported class for simulation
+                # no admissible choice: outside the supported class for the *decision* (C02); the law of motion still speaks
+                # about the choices that are reported for such an agent (C03: "reported choices")
                 out["stats"]["undefined"] += 1
+                if t + 1 < T and all(c == c for c in row["choices"].values()):
+                    _check_next(out, sp, rows[t + 1][i], where, t, tol, stats=False)
+                elif t + 1 < T:
+                    out["C03"].append({"clause": "next state equals the transition function", "detail": f"{where}: the reported choices of an agent without admissible choice are not numbers, its next state {rows[t + 1][i]['states']} cannot be the transition function at the reported choices"})
                 continue
             if not sp["on_grid"]:
                 out["C02"].append({"clause": "reported choices are grid values", "detail": where})
@@ -233,18 +245,24 @@ def check_simulation(mj, P, V, rows, init, tol=None):
             if not same_number(row["value"], sp["best"], tol):
                 out["C02"].append({"clause": "reported value equals the maximum", "detail": f"{where}: value {fr(row['value'])}, maximum {sp['best']}"})
             if t + 1 < T:
-                nrow = rows[t + 1][i]
-                for s, v in sp["next_det"].items():
-                    if not same_number(nrow["states"][s], v, tol):
-                        out["C03"].append({"clause": "next state equals the transition function", "detail": f"{where}: state {s} in period {t + 1} is {fr(nrow['states'][s])}, transition gives {v}"})
-                for s, prow in sp["rows"].items():
-                    out["stats"]["stoch_draws"] += 1
-                    lab = nrow["states"][s]
-                    if lab != int(lab) or not (0 <= int(lab) < len(prow)):
-                        out["C03"].append({"clause": "stochastic next state is a grid label", "detail": f"{where}: state {s} in period {t + 1} is {lab}"})
-                    elif Fr(prow[int(lab)]) <= 0:
-                        out["C03"].append({"clause": "drawn label has positive probability", "detail": f"{where}: state {s} label {int(lab)} has probability {prow[int(lab)]} in row {prow}"})
+                _check_next(out, sp, rows[t + 1][i], where, t, tol)
     return out
+
+
+def _check_next(out, sp, nrow, where, t, tol, stats=True):
+    for s, v in (sp.get("next_det") or {}).items():
+        if v is None:
+            continue
+        if not same_number(nrow["states"][s], v, tol):
+            out["C03"].append({"clause": "next state equals the transition function", "detail": f"{where}: state {s} in period {t + 1} is {fr(nrow['states'][s])}, transition gives {v}"})
+    for s, prow in (sp.get("rows") or {}).items():
+        if stats:
+            out["stats"]["stoch_draws"] += 1
+        lab = nrow["states"][s]
+        if lab != int(lab) or not (0 <= int(lab) < len(prow)):
+            out["C03"].append({"clause": "stochastic next state is a grid label", "detail": f"{where}: state {s} in period {t + 1} is {lab}"})
+        elif Fr(prow[int(lab)]) <= 0:
+            out["C03"].append({"clause": "drawn label has positive probability", "detail": f"{where}: state {s} label {int(lab)} has probability {prow[int(lab)]} in row {prow}"})
 
 
 def _eq(a, b, tol):
